@@ -28,7 +28,7 @@ pub struct C01 {
 
 impl C01 {
     pub fn new() -> C01 {
-        C01 { dry_every: 25, perm_orders: 1, ..Default::default() }
+        C01 { dry_every: if thorough() { 12 } else { 25 }, perm_orders: if thorough() { 4 } else { 1 }, ..Default::default() }
     }
 }
 
